@@ -272,7 +272,7 @@ func streamOps(o *Out, r *rand.Rand, n int, thorough bool) {
 					denotes = &v
 				case string:
 					if decFloatRe.MatchString(x) || decIntRe.MatchString(x) {
-						if v, err := strconv.ParseFloat(x, 64); err == nil {
+						if v, err := strconv.ParseFloat(strings.ReplaceAll(x, "_", ""), 64); err == nil {
 							denotes = &v
 						}
 					}
